@@ -2,6 +2,7 @@ package sym
 
 import (
 	"fmt"
+	"os"
 	"go/types"
 	"strings"
 
@@ -488,6 +489,10 @@ func (x *Exec) refineCRC(extra *term.Term, m map[string]uint64) map[string]uint6
 		r, m2 := x.check(q, x.ctx.Vars)
 		if r != smt.Sat {
 			x.needExact = true
+			x.refineFail = append(x.refineFail, fmt.Sprintf("refinement attempt %d: %v at %s", attempt, r, x.where()))
+			if os.Getenv("VERIF_DEBUG") != "" {
+				fmt.Fprintln(os.Stderr, "refineCRC failed:", x.refineFail[len(x.refineFail)-1])
+			}
 			return nil
 		}
 		m = m2
